@@ -305,7 +305,11 @@ def roundtrip(ctx, c, t0, t1, reader, param_rows, defs):
     ctx.inst("R14.2", "sort:(_ BitVec w)", ok_bv, None, "`(_ BitVec w)` must be read as Type::BV(w)")
     ctx.inst("R14.2", "sort:(Array I D)", ok_arr, None, "`(Array I D)` must be read as ArrayType{index_width: I, data_width: D} in that order")
     g = ctx.fn("patronus", Pm + "early_parse_single_token")
-    okb = any(arm["pat"].get("k") == "plit" and arm["pat"].get("v") == "Bool" and "Type::BV(1)" in show(arm["body"]) for n_ in walk(g["body"]) if n_.get("k") == "match" for arm in n_["arms"])
+    gv = (param_ids(g) + [None] * 3)[2]          # early_parse_single_token(ctx, st, value)
+    disp = psanorm.literal_dispatch(g["body"], gv)
+    rb = psanorm.result_value(disp["Bool"]) if "Bool" in disp else {}
+    tb = peel(rb["args"][0]) if rb.get("k") == "ctor" and callee(rb).endswith("ParserItem::PType") and rb.get("args") else {}
+    okb = tb.get("k") == "ctor" and callee(tb).endswith("Type::BV") and len(tb["args"]) == 1 and peel(tb["args"][0]).get("v") == 1
     ctx.inst("R14.2", "sort:Bool", okb, g["span"], "`Bool` must be read as Type::BV(1)")
 
 
@@ -391,7 +395,9 @@ def literals(ctx, c):
         ctx.violation("R14.3", "arms", f["span"], "UNRECOGNISED: no match over the regex alternative index")
         return
     # the matched index is the first match of the set
-    P = {name: i for p in f["params"] for name, i in pat_bindings(p)}
+    fix = Index(f["body"])
+    fdefs = local_defs(f)
+    p_value = (param_ids(f) + [None] * 3)[2]
     arms = {a["pat"]["v"]: a for a in m["arms"] if a["pat"].get("k") == "plit"}
     want = {}
     for i, rx in enumerate(lits):
@@ -405,27 +411,57 @@ def literals(ctx, c):
             want[i] = "false"
         else:
             want[i] = "other"
+
+    def pexpr_payload(arm):
+        """the expression wrapped as PExpr(..) that the arm yields (through Ok / a block / lets); None unless every non-error exit of the arm yields it"""
+        vals = [psanorm.result_value(arm["body"])] + [psanorm.result_value(x["e"]) for x in walk(arm["body"]) if x.get("k") == "return" and "e" in x]
+        vals = [v for v in vals if not (v.get("k") == "ctor" and callee(v).endswith("Result::Err")) and v.get("ty") != "!" and v.get("k") not in ("return",)]
+        if len(vals) != 1:
+            return None
+        v = vals[0]
+        if v.get("k") == "ctor" and callee(v).endswith("ParserItem::PExpr") and len(v["args"]) == 1:
+            return strip_try(resolve(v["args"][0]))
+        return None
     for i, kind in want.items():
         arm = arms.get(i)
         if arm is None:
             ctx.violation("R14.3", "alt#%d" % i, m["sp"], "regex alternative #%d (%s) has no arm" % (i, lits[i]))
             continue
-        b = show(arm["body"]).replace(" ", "")
+        pay = pexpr_payload(arm)
         if kind in ("bin", "hex"):
             fn_ = "from_bit_str" if kind == "bin" else "from_hex_str"
-            # exactly: let value = BitVecValue::from_X(str::from_utf8(&value[2..])?)?; Ok(PExpr(ctx.bv_lit(&value)))
-            stm = stmts_of(arm["body"])
-            ok = len(stm) == 2 and ("BitVecValue::%s(converts::from_utf8(&value[range::RangeFrom{start:2}])?)?" % fn_) in b and "ctx.bv_lit(&value)" in b
+            # PExpr(ctx.bv_lit(&BitVecValue::from_X(str::from_utf8(&value[2..])?)?)), possibly through lets
+            ok = False
+            if pay is not None and pay.get("k") == "mcall" and pay["name"] == "bv_lit" and (callee(pay) or "").startswith(builders.CTX + "::"):
+                lit_ = strip_try(resolve(strip_try(pay["args"][0])))
+                if lit_.get("k") == "call" and (callee(lit_) or "").endswith("BitVecValue::" + fn_) and len(lit_["args"]) == 1:
+                    txt = strip_try(resolve(strip_try(lit_["args"][0])))
+                    if txt.get("k") == "call" and (callee(txt) or "").endswith("from_utf8") and len(txt["args"]) == 1:
+                        sl = peel(txt["args"][0])
+                        rng = peel(sl["i"]) if sl.get("k") == "index" else {}
+                        start = {f_["name"]: f_["e"] for f_ in rng.get("fields", [])}.get("start") if rng.get("k") == "struct" and rng["path"].endswith("RangeFrom") else None
+                        ok = sl.get("k") == "index" and is_local(sl["e"], p_value) and start is not None and peel(start).get("v") == 2
             anchored = lits[i].endswith("$") and lits[i].startswith("^") and ("[01]+" in lits[i] if kind == "bin" else "xdigit" in lits[i])
             ctx.inst("R14.3", "alt#%d:%s" % (i, kind), ok and anchored, arm["sp"], "a `%s` literal (alternative #%d `%s`) must be read as %s(text after the 2-byte prefix) and interned as is: %s" % ("#b" if kind == "bin" else "#x", i, lits[i], fn_, show(arm["body"])[:160]), sample=show(arm["body"])[:120])
         elif kind in ("true", "false"):
-            ok = ("ctx.get_%s()" % kind) in b
+            ok = pay is not None and pay.get("k") == "mcall" and pay["name"] == "get_" + kind and (callee(pay) or "").startswith(builders.CTX + "::")
             ctx.inst("R14.3", "alt#%d:%s" % (i, kind), ok, arm["sp"], "`%s` (alternative #%d) must be read as Context::get_%s(): %s" % (kind, i, kind, show(arm["body"])[:100]))
         else:
-            ok = "Err(" in b
+            ok = any(x.get("k") == "ctor" and callee(x).endswith("Result::Err") for x in walk(arm["body"]))
             ctx.inst("R14.3", "alt#%d:unsupported" % i, ok, arm["sp"], "alternative #%d (%s) must be rejected with an error" % (i, lits[i]), nontrivial=False)
-    first = [n for n in walk(f["body"]) if n.get("k") == "letexpr" and "NUM_LIT_REGEX" in show(n["init"])]
-    ok = len(first) == 1 and show(first[0]["init"]).replace(" ", "").endswith(".matches(value).into_iter().next()")
+    # the index matched on is the first match of the regex set on the token
+    sc = peel(m["scrut"])
+    src = None
+    if sc.get("k") == "local":
+        d = fdefs.get(sc["id"])
+        if d and d[0] in ("letexpr", "let") and "init" in d[1]:
+            pat = d[1]["pat"]
+            if pat.get("k") == "pvariant" and pat["path"].endswith("Option::Some"):
+                src = psanorm.value_source(fix, fdefs, d[1]["init"])
+    ok = False
+    if src is not None:
+        b_, ms_ = chain(src)
+        ok = [x[0] for x in ms_][-3:] == ["matches", "into_iter", "next"] and "NUM_LIT_REGEX" in show(b_) + show(ms_[0][2]["recv"]) and is_local(ms_[-3][1][0], p_value)
     ctx.inst("R14.3", "match-index", ok, f["span"], "the alternative index must be the first match of NUM_LIT_REGEX on the token")
 
 
@@ -545,22 +581,9 @@ def aborts(ctx):
 
 
 def guarded_decrement(f, n):
-    ix = Index(f["body"])
+    """`x -= 1` on an unsigned local that is known to be at least 1 at that point"""
     lid = local_id(n["l"])
-    if lid is None:
+    r = peel(n["r"])
+    if not (r.get("k") == "lit" and r.get("v") == 1) or (lid is None and field_path(n["l"]) is None):
         return False
-    blk = ix.parent.get(id(n))
-    while blk is not None and blk.get("k") not in ("blockexpr",):
-        blk = ix.parent.get(id(blk))
-    if blk is None:
-        return False
-    for st in blk["b"]["stmts"]:
-        s_ = unsemi(st)
-        if contains(s_, n):
-            break
-        if s_.get("k") == "if" and s_["then"].get("ty") == "!":
-            cs = show(s_["cond"]).replace(" ", "")
-            nm = peel(n["l"])["name"]
-            if cs in ("(%s==0)" % nm, "(%s<1)" % nm, "(0==%s)" % nm):
-                return True
-    return False
+    return psanorm.nonzero_at(Index(f["body"]), n, lid, n["l"])
